@@ -26,7 +26,7 @@ OPS = [
     "astype_float", "copy", "subregion", "time_slice", "time_interval", "metadata", "weight_float", "weight_int", "weight_image",
     "weight_image_resized", "weight_array", "stack", "stack_series", "append_like", "superpose", "refine", "coarsen", "reduce", "extrude", "resize", "zeros_like", "ones_like",
     "clip_model", "linear_model", "combined_model", "integrate", "normalize", "bounding_box", "random_patches", "init_lists", "init_height",
-    "subregion_voxelarray", "subregion_coordinates", "optical_mono_red_of_bgr", "optical_mono_blue_of_rgb", "optical_trichromatic_returned", "optical_mono_uint8_hsv", "optical_mono_uint8_gray",
+    "subregion_voxelarray", "subregion_coordinates", "optical_mono_red_of_bgr", "optical_mono_blue_of_rgb", "optical_trichromatic_returned", "optical_mono_uint8_hsv", "optical_mono_uint8_gray", "emd_distance", "optical_trichromatic_float64_concrete",
 ]
 
 
@@ -275,6 +275,12 @@ def run_op(c, op):
         E = c.t.image(f"E{k}", c.img(f"e{k}", dims=[1.0, 3.0]))  # voxel size 0.5 x 1.0, origin (0, 1)
         co = c.t.array(f"roi{k}", da.make_coordinate(np.array([[-1.0, 0.75], [2.5, -5.0]])))
         return E.subregion(co), E.img[0:2, 0:2]
+    if op == "emd_distance":
+        return run_emd(c, k), None
+    if op == "optical_trichromatic_float64_concrete":
+        raw = (np.arange(18, dtype=np.float64).reshape(2, 3, 3) + 1) / 20.0
+        O_ = c.t.image(f"O{k}", da.OpticalImage(raw.copy(), dimensions=list(c.dims), color_space="RGB", name="opt"))
+        return O_.to_trichromatic("BGR", return_image=True), None
     if op.startswith("optical_"):
         return run_optical(c, op, k)
     if op == "init_lists":
@@ -293,6 +299,42 @@ def run_op(c, op):
         S.claim(f"{op}:height_keyword_sets_first_dimension", S.eq(im.dimensions[0], hgt))
         return im, None
     raise ValueError(op)
+
+
+def run_emd(c, k):
+    """distance computation through the OpenCV back-end (cv2.EMD itself = an unconstrained value)"""
+    import darsia.measure.emd as emd
+
+    da = c.da
+    p = S.array(f"ep{k}", (2, 2), lo="1/10", hi=10)
+    q0 = S.array(f"eq{k}", 3, lo="1/10", hi=10)
+    tot_p = p[0, 0] + p[0, 1] + p[1, 0] + p[1, 1]
+    last = tot_p - (q0[0] + q0[1] + q0[2])
+    S.assume(S.le(S.const("1/10"), last))
+    q = np.array([[q0[0], q0[1]], [q0[2], last]], dtype=_dt())
+    P = c.t.image(f"EP{k}", da.Image(p.copy(), dimensions=list(c.dims), scalar=True, name="p"))
+    Q = c.t.image(f"EQ{k}", da.Image(q.copy(), dimensions=list(c.dims), scalar=True, name="q"))
+    real_cv2 = emd.cv2
+    if S.instrumented():
+        class CV2:
+            DIST_L2 = real_cv2.DIST_L2
+
+            def __getattr__(self, nm):
+                return getattr(real_cv2, nm)
+
+            @staticmethod
+            def EMD(s1, s2, dist):
+                if S.symbolic():
+                    return S.fresh("emd"), None, None
+                f1 = np.array([[S.tofloat(v) for v in row] for row in s1], dtype=np.float32)
+                f2 = np.array([[S.tofloat(v) for v in row] for row in s2], dtype=np.float32)
+                return S.const(float(real_cv2.EMD(f1, f2, dist)[0])), None, None
+
+        emd.cv2 = CV2()
+    try:
+        return da.EMD()(P, Q)
+    finally:
+        emd.cv2 = real_cv2
 
 
 def run_optical(c, op, k):
